@@ -1057,7 +1057,7 @@ impl Parser {
             // Metathesis
             if let Some(el) = self.eat_expect(TokenKind::Ampersand) {
                 outputs.push(vec![Item::new(ParseElement::Metathesis, el.position)]);
-                if !self.expect(TokenKind::Comma) && (!self.peek_expect(TokenKind::Slash) && !self.peek_expect(TokenKind::Pipe) && !self.peek_expect(TokenKind::Eol)) {
+                if !self.expect(TokenKind::Comma) && (!self.peek_expect(TokenKind::Slash) && !self.peek_expect(TokenKind::Pipe) && !self.peek_expect(TokenKind::DubSlash) && !self.peek_expect(TokenKind::Comment) && !self.peek_expect(TokenKind::Eol)) {
                     return Err(RuleSyntaxError::MetathErr(self.curr_tkn.clone()))
                 }
                 continue;
@@ -1065,7 +1065,7 @@ impl Parser {
             // Deletion
             if let Some(empty) = self.get_empty() {
                 outputs.push(vec![empty]);
-                if !self.expect(TokenKind::Comma) && !self.peek_expect(TokenKind::Slash) && !self.peek_expect(TokenKind::Pipe) && !self.peek_expect(TokenKind::Eol) {
+                if !self.expect(TokenKind::Comma) && !self.peek_expect(TokenKind::Slash) && !self.peek_expect(TokenKind::Pipe) && !self.peek_expect(TokenKind::DubSlash) && !self.peek_expect(TokenKind::Comment) && !self.peek_expect(TokenKind::Eol) {
                     return Err(RuleSyntaxError::DeleteErr(self.curr_tkn.clone()))
                 }
                 continue;
@@ -1114,7 +1114,7 @@ impl Parser {
         if self.expect(TokenKind::Eol) || self.expect(TokenKind::Comment) {
             return Ok(Rule::new(input, output, Vec::new(), Vec::new()))
         }
-        if !self.peek_expect(TokenKind::Slash) && !self.peek_expect(TokenKind::Pipe) {
+        if !self.peek_expect(TokenKind::Slash) && !self.peek_expect(TokenKind::Pipe) && !self.peek_expect(TokenKind::DubSlash) {
             return Err(RuleSyntaxError::ExpectedEndLine(self.curr_tkn.clone()))
         }
         // ('/' ENV)
